@@ -17,9 +17,9 @@ for p in props:
         na.append(dict(property_id=p, reason=NOT_APPLICABLE.get(p, NOT_REACHED)))
 man = dict(version=1,
            setup_cmd="python3 -c 'import sys; sys.exit(0)' && verus --version >/dev/null",
-           hooks=dict(guard="none", enable="no hooks: checks read /repo sources (Verus) or build an unmodified scratch copy with an appended #[cfg(kani)] harness module (Kani); /repo itself is never instrumented",
+           hooks=dict(guard="none", enable="no hooks: the checks read /repo sources (Verus on mechanically extracted text) and compile the unmodified sources by path into native replay harnesses under the check's build directory; faults, crash points and the wall clock are injected from outside through an LD_PRELOAD library (replay/faultlib), /repo itself is never instrumented",
                       baseline_off_cmd="cd /repo && cargo test --workspace --no-fail-fast --offline", source_commits=[], add_only=True),
-           engines=[dict(name="vx", path="/verif/tools/vx", serves_properties=sorted(CLAIMS), kind_free_text="mechanical extraction of real functions from /repo + sidecar contracts -> Verus (Z3); Kani (CBMC) for unsafe decode obligations")],
+           engines=[dict(name="vx", path="/verif/tools/vx", serves_properties=sorted(CLAIMS), kind_free_text="mechanical extraction of real functions / statement regions from /repo + sidecar contracts -> Verus (Z3), function by function; native scenario families replay failing histories against the real code (no Kani harness is used)")],
            checks=checks, not_applicable=na,
            notes="exit 2 from a check means undecided (lost anchor, unsupported construct, solver limit) and is never an alarm; see DESIGN.md")
 json.dump(man, open(os.path.join(V, "MANIFEST.json"), "w"), indent=1)
